@@ -329,6 +329,7 @@ def pushd_fn(
 
     pwd = env["PWD"]
     stack_before = list(DIRSTACK)
+    rotate_at = None
 
     if env.get("PUSHD_MINUS", False):
         BACKWARD = "-"
@@ -363,12 +364,14 @@ def pushd_fn(
             if num == len(DIRSTACK):
                 new_pwd = None
             else:
-                new_pwd = DIRSTACK.pop(len(DIRSTACK) - 1 - num)
+                rotate_at = len(DIRSTACK) - 1 - num
+                new_pwd = DIRSTACK.pop(rotate_at)
         elif dir_or_n.startswith(BACKWARD):
             if num == 0:
                 new_pwd = None
             else:
-                new_pwd = DIRSTACK.pop(num - 1)
+                rotate_at = num - 1
+                new_pwd = DIRSTACK.pop(rotate_at)
         else:
             e = "Invalid argument to pushd: {0}\n"
             return None, e.format(dir_or_n), 1
@@ -380,7 +383,16 @@ def pushd_fn(
                 # nothing happened: leave the stack as it was
                 DIRSTACK = stack_before
                 return None, None, 1
-            DIRSTACK.insert(0, os.path.expanduser(pwd))
+            if rotate_at is None:
+                DIRSTACK.insert(0, os.path.expanduser(pwd))
+            else:
+                # +N/-N rotate the whole list (as printed by ``dirs``): the
+                # entries that were above the selected one move to the bottom.
+                DIRSTACK = (
+                    DIRSTACK[rotate_at:]
+                    + [os.path.expanduser(pwd)]
+                    + DIRSTACK[:rotate_at]
+                )
         else:
             DIRSTACK.insert(0, os.path.expanduser(new_pwd))
 
